@@ -80,3 +80,88 @@ package sqlx
 //@   loop 2 iteration-ensures [row-mapped-with-callers-strictness] calls(mapStructFieldsIntoSlice) == 1 && arg(mapStructFieldsIntoSlice, 2) == strict && arg(mapStructFieldsIntoSlice, 1) == columns
 //@   loop 2 iteration-ensures [row-scanned-into-mapped-destinations] ret(mapStructFieldsIntoSlice, 1) == nil && calls(scanner.Scan) == 1 && arg(scanner.Scan, 0) == ret(mapStructFieldsIntoSlice, 0) && before(mapStructFieldsIntoSlice, Scan)
 //@   ensures [mapping-error-returned] calls(mapStructFieldsIntoSlice) >= 1 && ret(mapStructFieldsIntoSlice, 1, 1) != nil ==> result == ret(mapStructFieldsIntoSlice, 1, 1)
+
+// ---------------- strictness of the query entry points (C11) and what the breaker is told (C01) ----------------
+// QueryRow/QueryRows map strictly (every destination field must be covered by a column), the Partial forms do
+// not; the scanner handed down is the row mapper for the caller's destination and returns its verdict.
+//@ func (*commonConn).QueryRowCtx$2
+//@   prop C11
+//@   opaque unmarshalRow, unmarshalRows
+//@   ensures [maps-strictly] calls(unmarshalRow, v, rows, true) == 1 && result == ret(unmarshalRow)
+//@ func (*commonConn).QueryRowPartialCtx$2
+//@   prop C11
+//@   opaque unmarshalRow, unmarshalRows
+//@   ensures [maps-partially] calls(unmarshalRow, v, rows, false) == 1 && result == ret(unmarshalRow)
+//@ func (*commonConn).QueryRowsCtx$2
+//@   prop C11
+//@   opaque unmarshalRow, unmarshalRows
+//@   ensures [maps-strictly] calls(unmarshalRows, v, rows, true) == 1 && result == ret(unmarshalRows)
+//@ func (*commonConn).QueryRowsPartialCtx$2
+//@   prop C11
+//@   opaque unmarshalRow, unmarshalRows
+//@   ensures [maps-partially] calls(unmarshalRows, v, rows, false) == 1 && result == ret(unmarshalRows)
+//@ func (statement).QueryRowCtx$2
+//@   prop C11
+//@   opaque unmarshalRow, unmarshalRows
+//@   ensures [maps-strictly] calls(unmarshalRow, v, rows, true) == 1 && result == ret(unmarshalRow)
+//@ func (statement).QueryRowPartialCtx$2
+//@   prop C11
+//@   opaque unmarshalRow, unmarshalRows
+//@   ensures [maps-partially] calls(unmarshalRow, v, rows, false) == 1 && result == ret(unmarshalRow)
+//@ func (statement).QueryRowsCtx$2
+//@   prop C11
+//@   opaque unmarshalRow, unmarshalRows
+//@   ensures [maps-strictly] calls(unmarshalRows, v, rows, true) == 1 && result == ret(unmarshalRows)
+//@ func (statement).QueryRowsPartialCtx$2
+//@   prop C11
+//@   opaque unmarshalRow, unmarshalRows
+//@   ensures [maps-partially] calls(unmarshalRows, v, rows, false) == 1 && result == ret(unmarshalRows)
+//@ func (txSession).QueryRowCtx$2
+//@   prop C11
+//@   opaque unmarshalRow, unmarshalRows
+//@   ensures [maps-strictly] calls(unmarshalRow, v, rows, true) == 1 && result == ret(unmarshalRow)
+//@ func (txSession).QueryRowPartialCtx$2
+//@   prop C11
+//@   opaque unmarshalRow, unmarshalRows
+//@   ensures [maps-partially] calls(unmarshalRow, v, rows, false) == 1 && result == ret(unmarshalRow)
+//@ func (txSession).QueryRowsCtx$2
+//@   prop C11
+//@   opaque unmarshalRow, unmarshalRows
+//@   ensures [maps-strictly] calls(unmarshalRows, v, rows, true) == 1 && result == ret(unmarshalRows)
+//@ func (txSession).QueryRowsPartialCtx$2
+//@   prop C11
+//@   opaque unmarshalRow, unmarshalRows
+//@   ensures [maps-partially] calls(unmarshalRows, v, rows, false) == 1 && result == ret(unmarshalRows)
+
+// query: the guard may refuse; a failed QueryContext is returned without scanning; otherwise the rows are scanned
+// exactly once by the given scanner, whose verdict is returned, and the rows are closed (also if it panics).
+//@ func query
+//@   prop C11, C01
+//@   opaque newGuard, start, finish
+//@   may-panic scanner
+//@   ensures [refused] ret(start) != nil ==> result == ret(start) && calls(QueryContext) == 0 && calls(scanner) == 0
+//@   ensures [query-error] ret(start) == nil && ret(QueryContext, 1) != nil ==> result == ret(QueryContext, 1) && calls(scanner) == 0 && calls(Close) == 0
+//@   ensures [scanned-once-and-closed] ret(start) == nil && ret(QueryContext, 1) == nil ==> calls(scanner, ret(QueryContext, 0)) == 1 && result == ret(scanner) && calls(Close) == 1 && before(scanner, Close)
+//@   ensures [same-statement] ret(start) == nil ==> calls(conn.QueryContext) == 1 && arg(conn.QueryContext, 0) == ctx && arg(conn.QueryContext, 1) == query && arg(conn.QueryContext, 2) == args
+//@   panic-ensures [closed-on-panic] calls(Close) == 1
+
+// queryRows: the query runs under the connection's breaker; an error produced by the row scanner (a mapping
+// problem of this caller, not a database failure) is always acceptable to the breaker, anything else is judged
+// by acceptable().
+//@ func (*commonConn).queryRows
+//@   prop C01, C11
+//@   opaque Inc
+//@   ensures [under-breaker] calls(db.brk.DoWithAcceptable) == 1 && result == ret(DoWithAcceptable)
+//@ func (*commonConn).queryRows$2
+//@   prop C01
+//@   opaque acceptable
+//@   ensures [scan-error-not-a-failure] err == scanErr ==> result
+//@   ensures [otherwise-by-acceptable] err != scanErr ==> calls(db.acceptable, err) == 1 && result == ret(acceptable)
+//@ func (*commonConn).queryRows$1
+//@   prop C01, C11
+//@   opaque onError, query
+//@   ensures [no-connection] ret(db.provider, 1) != nil ==> result == ret(db.provider, 1) && calls(query) == 0 && calls(db.onError, ret(db.provider, 1)) == 1
+//@   ensures [queries-on-the-connection] ret(db.provider, 1) == nil ==> calls(query) == 1 && arg(query, 0) == ctx && unbox(arg(query, 1), ptr(sql.DB)) == ret(db.provider, 0) && arg(query, 3) == q && arg(query, 4) == args && result == ret(query)
+//@ func (*commonConn).queryRows$1$1
+//@   prop C01, C11
+//@   ensures [records-scan-verdict] calls(scanner, rows) == 1 && scanErr == ret(scanner) && result == ret(scanner)
